@@ -745,7 +745,12 @@ def run_job(job):
     # traversed (all sources, all filter tuples); the traversal after the
     # last operation is always made.  Event "graph" / "regraph" = the
     # repository as it is stored at that moment.
-    cuts = sorted(set(job.get("cuts") or ())) + [len(job["creates"])]
+    # quiet: positions where only the repository is read back (a "regraph"
+    # event without queries).
+    quiet = set(job.get("quiet") or ())
+    cuts = sorted(set(job.get("cuts") or ()) | quiet |
+                  {len(job["creates"])})
+    quiet.discard(cuts[-1])
     conn, log, state = build(rng, job["nodes"], job["creates"], job["mode"],
                              job["use_pull"], upto=cuts[0])
     fl = job.get("lists") or filter_lists(rng, job["full"],
@@ -758,19 +763,27 @@ def run_job(job):
             build(rng, job["nodes"], job["creates"], job["mode"],
                   job["use_pull"], upto=cut, state=state)
         stored = Stored(conn)
+        between = [c.get("op", "create")
+                   for c in job["creates"][cuts[n - 1] if n else 0:cut]]
+        after = "rejected" if n and between and \
+            all(o == "reject" for o in between) else "writes"
         ncalls += _traverse(rng, job, conn, stored, fl, trace,
-                            "regraph" if n else "graph")
+                            "regraph" if n else "graph", after,
+                            cut in quiet)
     return {"trace": trace, "log": log, "lists": fl, "ncalls": ncalls,
             "nnodes": len(stored.nodes), "nassocs": len(stored.assocs),
             "rejected": state["rejected"],
             "notrejected": state["notrejected"]}
 
 
-def _traverse(rng, job, conn, stored, fl, trace, gop):
+def _traverse(rng, job, conn, stored, fl, trace, gop, after, quiet):
     acs, rcs, rls = fl["acs"], fl["rcs"], fl["rls"]
     acn, rcn, rln = fl["acn"], fl["rcn"], fl["rln"]
     trace.append({"op": gop, "nodes": stored.nodes, "assocs": stored.assocs,
-                  "xpar": stored.xpar, "acs": acs, "rcs": rcs, "rls": rls})
+                  "xpar": stored.xpar, "acs": acs, "rcs": rcs, "rls": rls,
+                  "after": after})
+    if quiet:
+        return 0
     p_extra = job["p_extra"]
     ncalls = 0
     part_k, part_n = job.get("part") or (0, 1)
